@@ -14,8 +14,9 @@ Variable sha1 : bytes -> bytes.
 Variable blk_dec : N -> bytes -> bytes -> bytes.
 Variable zdecomp : N -> bytes -> N -> option bytes.
 
-(* For every configuration and group map, every history of decode requests (any credentials, any clients, any
-   outcomes) and purge events after the record k was made: a later first-attempt presentation that authenticates,
+(* For every configuration and group map, every history of decode requests (any credentials, any retry values, any
+   clients, any outcomes, replies delivered or undeliverable - HDecode / HDecodeLost) and purge events after the record
+   k was made: a later first-attempt presentation that authenticates,
    is authorized and lies inside the time window — hence at any second up to and including the last valid one —
    is answered 'replayed' and changes nothing, provided the purges happened at clock readings not beyond that
    presentation's (a non-decreasing clock). *)
